@@ -355,7 +355,7 @@ def run_sheets(order, ignore_mask, ctx):
 # What a load yields depends on its own arguments only - not on an earlier load
 # in the same process (another workbook, other ignore arguments).
 LOAD_TITLES = ['Sheet1', 'Calc', 'My Sheet']
-LOAD_HIDDEN = ('Calc',)
+LOAD_HIDDEN = {'Calc': 'hidden', 'My Sheet': 'veryHidden'}
 LOAD_OPTS = [('default', ()), ('ignore-hidden', ()), ('ignore-list', ()),
              ('ignore-list', ('Calc',)), ('ignore-list', ('Sheet1',)),
              ('ignore-list', ('My Sheet', 'Calc'))]
@@ -582,6 +582,8 @@ def run_names(ctx):
     sheets[0][1]['E1'] = {'form': 'f', 'f': 'cellname+1'}
     sheets[0][1]['E2'] = {'form': 'f', 'f': 'SUM(rangename)'}
     sheets[0][1]['E3'] = {'form': 'f', 'f': 'qcell*2'}
+    # (no formula of the workbook spells this range itself)
+    sheets[0][1]['E4'] = {'form': 'f', 'f': 'SUM(qrange)'}
     names = {'cellname': 'Sheet1!$B$2', 'rangename': 'Sheet1!$A$1:$B$2',
              'qcell': "'My Sheet'!$C$3", 'qrange': "'My Sheet'!$A$1:$A$3"}
     inputs = {'family': 'names'}
@@ -625,6 +627,9 @@ def run_names(ctx):
     ctx.check('C11/names/eval/qcell*2', lib.eval_addr(model, 'Sheet1!E3'),
               lib.norm(v(1, 'C', 3) * 2),
               ['name:cell', 'name:quoted-sheet', 'oracle:evaluate'], inputs)
+    ctx.check('C11/names/eval/SUM(qrange)', lib.eval_addr(model, 'Sheet1!E4'),
+              lib.norm(v(1, 'A', 1) + v(1, 'A', 2) + v(1, 'A', 3)),
+              ['name:range', 'name:quoted-sheet', 'oracle:evaluate'], inputs)
     ctx.check('C11/names/get/cellname',
               lib.observe(model.get_cell_value, 'cellname'),
               lib.norm(v(0, 'B', 2)), ['name:cell', 'oracle:get'], inputs)
@@ -754,7 +759,7 @@ def run_shard(shard, ctx):
             for b in range(len(LOAD_OPTS)):
                 run_loads(a, b, ctx)
         ctx.sample({'family': f, 'sheets': LOAD_TITLES,
-                    'hidden': list(LOAD_HIDDEN),
+                    'hidden': dict(LOAD_HIDDEN),
                     'history': 'load(ignore_hidden=True); load()'})
     elif f == 'latin':
         for si in (0, 1):
